@@ -25,7 +25,7 @@ CLAIMED = {
         "note": 'trusted: Coq kernel, stdlib real axioms (+ Uint63/float primitives via Interval in the example), translator (self-checked each run on outcome class '
                 'and state), Spec_SGP4.v transcription (cross-checked by the Gen=Spec proofs: a slip in D4 was caught that way). Known findings: C01:aiaa:29141 '
                 '(decaying SL-14 DEB entry of the AIAA set, 0.35 m); C01:binary64-conditioning:eL2>=0.9 (accepted high-eccentricity island, metres at 1e6-1e10 km); '
-                'C01:binary64-inclination-rounding:i>=179.999 (nine inclinations next to 180 deg, below 1 m, what is left after fix c31ed46). Exact oracle: '
+                'C01:binary64-inclination-rounding:i>=179.998 (inclinations >= 179.998 deg, below 1 m, what is left after fix c31ed46). Exact oracle: '
                 'checks/mpref_tool.py under python3-vt (mpmath)',
         "technique": 'Coq proof over source-regenerated model (symbolic tracing with path enumeration, decision trees, generated conversion lemmas); field/ring; Coquelicot '
                 'MVT/IVT, Lipschitz calculus, quadratic-convergence analysis of the Kepler iteration; independent STR#3 oracle + AIAA vectors',
